@@ -50,6 +50,13 @@ class LCtx(CCtx):
     def lt(self, name):
         return self.locals[name].t
 
+    def ret(self) -> SV:
+        """the local variable returned by the function's final `return <name>`"""
+        n = self.extra.get('ret_name')
+        if n is None or n not in self.locals:
+            raise Unsupported('function does not end in `return <local>`')
+        return self.locals[n]
+
 
 class LoopSpec:
     def __init__(self, inv=None, stable_iter=True, variant=None, locals_ty=None, note=''):
@@ -64,7 +71,7 @@ class Contract:
     def __init__(self, key, params, returns=None, ghosts=None, requires=None, ensures=None, modifies=(),
                  allocates=False, raises=None, loops=None, decreases=None, pure=False, trusted=False, props=(),
                  locals_ty=None, call_ghosts=None, lemmas=None, is_property=False, note='', exc_modifies=None,
-                 inline=False):
+                 inline=False, call_lemmas=None):
         """key 'module:qualname'.  params: ordered dict name -> T.  ghosts: name -> z3 sort (universally quantified).
         requires/ensures: c -> list[(name, formula)].  raises: {ExcName: (cond(c over pre-state) , ensures_exc(c) or None)}
         — the function raises ExcName iff cond.  modifies: array names the function may write (coarse frame; the fine
@@ -89,6 +96,7 @@ class Contract:
         self.is_property = is_property
         self.note = note
         self.inline = inline
+        self.call_lemmas = dict(call_lemmas or {})
 
     @property
     def mod(self): return self.key.split(':')[0]
